@@ -284,6 +284,11 @@ func batch(t *testing.T, p *Prop, res *WorkerResult, known []Known) {
 			break
 		}
 		rs := sim.DeriveSeed(seed, p.ID, i)
+		if cur := os.Getenv("VERIF_OUT"); cur != "" {
+			// marker for the driver: which run was executing if the process dies (a panic in a
+			// goroutine started by goProbe cannot be recovered here)
+			_ = os.WriteFile(cur+".current", []byte(fmt.Sprintf("%d %d %d", i, rs, res.Evaluations)), 0o644)
+		}
 		wantTrace := len(res.Samples) < 2
 		r, v := exec(t, p, sim.NewTape(rs), wantTrace, known)
 		res.Evaluations++
@@ -396,7 +401,11 @@ func replay(t *testing.T, p *Prop, res *WorkerResult, known []Known) {
 		tries = 3
 	}
 	for i := 0; i < tries; i++ {
-		r, v := exec(t, p, sim.ReplayTape(rf.Tape), true, known2)
+		tape := sim.ReplayTape(rf.Tape)
+		if len(rf.Tape) == 0 && rf.RunSeed != 0 {
+			tape = sim.NewTape(rf.RunSeed) // crash records carry the run seed only
+		}
+		r, v := exec(t, p, tape, true, known2)
 		res.Evaluations++
 		if v != nil {
 			res.Violations = append(res.Violations, VRec{Property: p.ID, Clause: v.Clause, Signature: v.Signature, Detail: v.Detail, Tape: rf.Tape, Trace: r.Trace(), Count: 1})
